@@ -336,3 +336,22 @@ Proof.
   intros rp rl t e Hp Hin. unfold entries in Hin.
   pose proof (entries_norm_len t [] rp rl 0 e Hp Hin) as H. lia.
 Qed.
+
+(* ---------- a file given as scan root (fixes/D130): the walk yields the file alone, at depth 0; its parent
+   directory was not walked and gets no record, whatever the exclusion columns say ---------- *)
+Lemma file_root_no_stats : forall m e, e_kind e = KFile -> e_depth e = 0 -> step m e = m.
+Proof.
+  intros m e Hk Hd. unfold step. rewrite Hk, Hd.
+  destruct (scan_excluded (e_cols e) false); [reflexivity|].
+  destruct (count_excluded (e_cols e)); reflexivity.
+Qed.
+
+Lemma file_roots_no_stats : forall es,
+  (forall e, In e es -> e_kind e = KFile /\ e_depth e = 0) -> scan_counts es = [].
+Proof.
+  intros es H. unfold scan_counts. assert (G : forall m, fold_left step es m = m).
+  { induction es as [|e es IH]; intro m; simpl. reflexivity.
+    destruct (H e (or_introl eq_refl)) as [Hk Hd]. rewrite (file_root_no_stats m e Hk Hd).
+    apply IH. intros e' He'. apply H. right. exact He'. }
+  apply G.
+Qed.
